@@ -1781,7 +1781,7 @@ def char_cuts(lines, prog, is_main, max_lines):
         cols = set()
         for m in (toks[0], toks[-1]):
             a, b = m.span()
-            cols.update({a, a + 1, (a + b) // 2, b - 1})
+            cols.update({a, a + 1, a + 2, (a + b) // 2, b - 1})     # a+2: a digit is kept also after a sign
         out += [(j, c) for c in sorted(cols) if 0 <= c < len(lines[j])]
     return out
 
